@@ -261,7 +261,7 @@ fn judge_polygon(case: &Case, l: &mut Local) {
         l.eval();
         verif::set_budget(10_000);
         let r = guarded(|| ball_pivot_with_centers_2d(&pts, BallPivotStart::StartOnConvex, BallPivotEnd::EndOnRepeat, AngleDir::Ccw, rad).map_err(|e| e.to_string()));
-        verif::set_budget(u64::MAX);
+        reset_budget();
         match r {
             Err(e) => {
                 l.check("ball pivot terminates", if e.contains("VERIF_BUDGET") { "budget" } else { "panic" }, false, mk, || format!("r {}: {}", rad, e));
